@@ -104,6 +104,7 @@ static unsigned canon_what(hwloc_topology_t t)
 void hv_case(uint64_t index)
 {
   hv_rng_seed(&R, HV.seed, "c05", index);
+  hx_whitespace_controls = index % 4 == 2;
   struct tg_config c; tg_config_random(&R, &c, 0);
   c.flags &= (HWLOC_TOPOLOGY_FLAG_INCLUDE_DISALLOWED | HWLOC_TOPOLOGY_FLAG_NO_DISTANCES | HWLOC_TOPOLOGY_FLAG_NO_MEMATTRS | HWLOC_TOPOLOGY_FLAG_NO_CPUKINDS | HWLOC_TOPOLOGY_FLAG_IMPORT_SUPPORT);
   if (hv_chance(&R, 2, 3)) c.flags &= ~(unsigned long)(HWLOC_TOPOLOGY_FLAG_NO_DISTANCES | HWLOC_TOPOLOGY_FLAG_NO_MEMATTRS | HWLOC_TOPOLOGY_FLAG_NO_CPUKINDS);
@@ -154,8 +155,12 @@ void hv_case(uint64_t index)
     tv_view_free(&vw);
     hwloc_topology_set_userdata_export_callback(t, export_cb);
   }
-  if (wf_check(t, "source.") != 0) { hwloc_topology_destroy(t); return; }
-  unsigned feat = hx_features(t);
+  /* blind export (1/3): a restrict is the very last thing done to the source and nothing consults it (no oracle, no getter) before the
+   * export, so whatever the exporter needs refreshed (distances, memory attributes, CPU kinds after a restrict) it must refresh itself */
+  int blind = hv_chance(&R, 1, 3);
+  if (blind) { struct hx_result res; hx_random_op(&h, 1u << HX_RESTRICT, &res); hv_desc("  blind export after: %s -> %d\n", res.desc, res.rc); hv_stat(res.rc == 0 ? "export.blind_after_restrict" : "export.blind_after_refused_restrict", 1); }
+  else if (wf_check(t, "source.") != 0) { hwloc_topology_destroy(t); return; }
+  unsigned feat = blind ? 0 : hx_features(t);
   char *buf = NULL; int len = 0;
 
   /* ---- v3 round trip, by buffer or file */
@@ -169,6 +174,7 @@ void hv_case(uint64_t index)
   } else if (hwloc_topology_export_xmlbuffer(t, &buf, &len, 0) < 0) { hv_viol("export.failed", "export_xmlbuffer failed errno %d", errno); goto done; }
   if (!byfile && (len <= 0 || buf[len - 1] != 0 || strlen(buf) != (size_t)len - 1)) hv_viol("export.length", "returned length %d does not include exactly one final NUL (strlen %zu)", len, strlen(buf));
   unsigned nexp_first = nexp;
+  if (blind) { if (wf_check(t, "source.") != 0) { if (byfile) free(buf); else hwloc_free_xmlbuffer(t, buf); hwloc_topology_destroy(t); return; } feat = hx_features(t); }
   if (getenv("VERIF_DUMP_XML")) { FILE *f = fopen(getenv("VERIF_DUMP_XML"), "w"); if (f) { fwrite(buf, 1, (size_t)len - 1, f); fclose(f); } }
   hv_ctxkey("import_v3:%s", byfile ? "file" : "buffer");
   nimp = 0;
